@@ -83,7 +83,13 @@ def generate(rng, tier="quick"):
     for st in steps:
         if st["op"] == "recover" and st.get("impl") != "model" and rng.random() < 0.1:
             st["blob_as"] = "bytearray"        # the stored row arrives in a buffer object, as released readers accept
-    return {"property": PROP, "config": {"psets": [pspec], "nodes": nodes}, "steps": steps,
+    cfg = {"psets": [pspec], "nodes": nodes}
+    r2 = rng.random()
+    if r2 < 0.10:
+        cfg["ephemeral_params"] = True      # parameter-set objects are built per session and freed with it
+    elif r2 < 0.16 and gspec["kind"] in gen.CHEAP_TO_REIMPORT:
+        cfg["python_O"] = True              # the deployment runs its processes with `python -O`
+    return {"property": PROP, "config": cfg, "steps": steps,
             "intent": {"mode": mode, "inbound": inbound}}
 
 
